@@ -1,4 +1,5 @@
-import SgVerif.C25.Lemmas
+import SgVerif.C25.FloydPred
+import SgVerif.C25.DijkstraTerm
 /-
 C25 — Shortest-path zones compute minimal routes.  Property theorems (nothing else in this file).
 Every theorem is for every number of nodes, every set of declared routes (any link lists, symmetric or one-way).
@@ -78,11 +79,6 @@ theorem floyd_stores_declared (s s' : FloydSt) (src dst : Nat) (links : List Lk)
         have : ¬ (src = dst ∧ dst = src) := fun e => hne e.1
         simp [Tbl.set, this]
 
-/-- chain of stored one-hop routes -/
-def HopChain (link : Tbl (List Lk)) : Nat → List (Nat × Nat × List Lk) → Nat → Prop
-  | a, [], b => a = b
-  | a, (p, q, l) :: hs, b => p = a ∧ link p q = some l ∧ HopChain link q hs b
-
 /-- **Floyd: whatever get_local_route returns is a chain of declared one-hop routes from src to dst** (the walk of
 the predecessor table pushes `link_table_[pred][cur]` and stops at `src`) — every table, every fuel. -/
 theorem floyd_path_valid (s : FloydSt) (src dst : Nat) : ∀ (f cur : Nat) (acc hops : List (Nat × Nat × List Lk)),
@@ -105,6 +101,88 @@ theorem floyd_path_valid (s : FloydSt) (src dst : Nat) : ∀ (f cur : Nat) (acc 
           subst h; rw [hps] at hc'; exact hc'
         · simp only [hps, ne_eq, not_false_eq_true, if_true] at h
           exact ih p _ hops hc' h
+
+/-- **Floyd: the predecessor table after do_seal** — for every n and every table `s` built by add_route
+(`WellDecl n s`: cost = link count and predecessor = source of every declared one-hop route, netpoint ids < n, every
+declared route has at least one link — `add_route_check_params` refuses an empty link list; `wellDecl_init`,
+`wellDecl_add`, `wellDecl_routes`, `wellDecl_loopback` show that add_route and the loopback step establish it):
+for every pair with a finite cost, the predecessor `p` of `b` on the way from `a` is a node < n, the one-hop route
+p → b is declared, and the cost is exactly the link count of that route (p = a) or the cost of (a, p) plus that link
+count; a pair with cost ULONG_MAX has predecessor -1; the link table is the declared one. -/
+theorem floyd_pred_invariant (n : Nat) (s : FloydSt) (h : WellDecl n s) :
+    (floydSeal n s).link = (floydLoopback n s).link ∧
+    (∀ a b, a < n → b < n → ∀ c, (floydSeal n s).cost a b = some c →
+      ∃ p l, (floydSeal n s).pred a b = some p ∧ p < n ∧ (floydSeal n s).link p b = some l ∧
+        ((p = a ∧ l.length = c) ∨ (p ≠ a ∧ ∃ cp, (floydSeal n s).cost a p = some cp ∧ cp + l.length = c))) ∧
+    (∀ a b, (floydSeal n s).cost a b = none → (floydSeal n s).pred a b = none) := by
+  have h0 := wellDecl_loopback n s h
+  refine ⟨floydLoops_link n _, ?_, noneInv_loops n _ h0.noneInv⟩
+  intro a b ha hb c hc
+  obtain ⟨p, l, hp, hpn, hl, hor⟩ := predExact_loops n _ h0 a b ha hb c hc
+  exact ⟨p, l, hp, hpn, by unfold floydSeal; rw [floydLoops_link]; exact hl, hor⟩
+
+/-- **Floyd: get_local_route returns a route of exactly `cost_table_[src][dst]` links** — the walk of the predecessor
+table terminates (within the model's fuel n + 1: it visits distinct nodes, because the cost from src strictly decreases
+along it), hits neither "No route" nor a null entry, and what it returns is a chain of declared one-hop routes from src
+to dst whose total link count is the entry of the cost table.  Every n, every set of declared routes. -/
+theorem floyd_route_length (n : Nat) (s : FloydSt) (h : WellDecl n s) (src dst c : Nat) (hs : src < n) (hd : dst < n)
+    (hc : (floydSeal n s).cost src dst = some c) :
+    ∃ hops, floydWalk (floydSeal n s) src (n + 1) dst [] = .ok hops ∧
+      HopChain (floydLoopback n s).link src hops dst ∧
+      floydRoute n (floydSeal n s) src dst = .ok (hops.flatMap fun h => h.2.2) ∧
+      (hops.flatMap fun h => h.2.2).length = c := by
+  have h0 := wellDecl_loopback n s h
+  have hlink : (floydSeal n s).link = (floydLoopback n s).link := floydLoops_link n _
+  obtain ⟨hops, hw, hlen⟩ := floydWalk_ok n (floydLoopback n s).link (floydSeal n s) hlink
+    (predExact_loops n _ h0) h0.pos src hs (n + 1) dst [] [] c hd hc List.nodup_nil (by simp) (by simp)
+  simp only [List.append_nil] at hw
+  refine ⟨hops, hw, ?_, by simp [floydRoute, hw], hlen⟩
+  have := floyd_path_valid (floydSeal n s) src dst (n + 1) dst [] hops rfl hw
+  rw [hlink] at this; exact this
+
+/-- **Floyd: the route returned is minimal** — whenever some non-empty chain of declared one-hop routes (incl. the
+loopbacks added by do_seal) leads from src to dst, get_local_route returns a route, that route is itself such a chain,
+and its link count is ≤ the link count of every such chain.  Every n, every set of declared routes. -/
+theorem floyd_route_minimal (n : Nat) (s : FloydSt) (h : WellDecl n s) (src dst : Nat) (hs : src < n) (hd : dst < n)
+    (hops' : List (Nat × Nat × List Lk)) (hne : hops' ≠ []) (hch : HopChain (floydLoopback n s).link src hops' dst) :
+    ∃ hops, HopChain (floydLoopback n s).link src hops dst ∧
+      floydRoute n (floydSeal n s) src dst = .ok (hops.flatMap fun h => h.2.2) ∧
+      (hops.flatMap fun h => h.2.2).length ≤ (hops'.flatMap fun h => h.2.2).length ∧
+      ∀ hops'', hops'' ≠ [] → HopChain (floydLoopback n s).link src hops'' dst →
+        (hops.flatMap fun h => h.2.2).length ≤ (hops''.flatMap fun h => h.2.2).length := by
+  have h0 := wellDecl_loopback n s h
+  have hmin : ∀ hops'', hops'' ≠ [] → HopChain (floydLoopback n s).link src hops'' dst →
+      optLe ((floydSeal n s).cost src dst) (some (hopsLen hops'')) := by
+    intro hops'' hne'' hch''
+    obtain ⟨mid, hm, hwc⟩ := hopChain_walkCost n _ h0 hops'' src dst hne'' hch''
+    have := (floyd_minimal n (floydLoopback n s) h0.insideCost src dst).2 mid hm
+    rw [hwc] at this; exact this
+  cases hc : (floydSeal n s).cost src dst with
+  | none => have := hmin hops' hne hch; rw [hc] at this; simp [optLe] at this
+  | some c =>
+    obtain ⟨hops, _, hchain, hroute, hlen⟩ := floyd_route_length n s h src dst c hs hd hc
+    have hle : ∀ hops'', hops'' ≠ [] → HopChain (floydLoopback n s).link src hops'' dst →
+        (hops.flatMap fun h => h.2.2).length ≤ (hops''.flatMap fun h => h.2.2).length := by
+      intro hops'' hne'' hch''
+      have := hmin hops'' hne'' hch''
+      rw [hc] at this
+      simp only [optLe, hopsLen] at this
+      omega
+    exact ⟨hops, hchain, hroute, hle hops' hne hch, hle⟩
+
+/-- **Floyd: "No route" exactly when there is none** — a pair whose cost stayed ULONG_MAX (equivalently, by
+`floyd_unreachable` / `floyd_minimal`: no chain of declared routes leads from src to dst) gets the "No route" exception
+at the first step of the walk (predecessor -1), never a null dereference or an endless walk. -/
+theorem floyd_no_route (n : Nat) (s : FloydSt) (h : WellDecl n s) (src dst : Nat)
+    (hc : (floydSeal n s).cost src dst = none) : floydRoute n (floydSeal n s) src dst = .error .noRoute := by
+  have hp := (floyd_pred_invariant n s h).2.2 src dst hc
+  simp [floydRoute, floydWalk, hp]
+
+/-- the same from the specification side: no chain of declared routes ⇒ "No route" -/
+theorem floyd_unreachable_no_route (n : Nat) (s : FloydSt) (h : WellDecl n s) (src dst : Nat)
+    (hno : ∀ mid, (∀ m ∈ mid, m < n) → walkCost (floydLoopback n s).cost src mid dst = none) :
+    floydRoute n (floydSeal n s) src dst = .error .noRoute :=
+  floyd_no_route n s h src dst (floyd_unreachable n _ (wellDecl_loopback n s h).insideCost src dst hno)
 
 /- ---------------------------------------------------------------- Full -/
 
@@ -143,17 +221,6 @@ theorem full_returns_declared (t t' : Table) (src dst : Nat) (links : List Lk) (
         simp [tableGet, List.find?, e1, e2]
 
 /- ---------------------------------------------------------------- Dijkstra -/
-
-def EdgeChain (g : DGraph) : Nat → List DEdge → Nat → Prop
-  | a, [], b => a = b
-  | a, e :: es, b => e ∈ g.edges ∧ e.src = a ∧ EdgeChain g e.dst es b
-
-theorem edgeChain_snoc (g : DGraph) (e : DEdge) (he : e ∈ g.edges) : ∀ (es : List DEdge) (a : Nat),
-    EdgeChain g a es e.src → EdgeChain g a (es ++ [e]) e.dst := by
-  intro es
-  induction es with
-  | nil => intro a h; simp only [EdgeChain] at h; exact ⟨he, h.symm, rfl⟩
-  | cons x xs ih => intro a h; exact ⟨h.1, h.2.1, ih x.dst h.2.2⟩
 
 /-- the links of one hop as variant `V` of the code emits them -/
 def hopLinks (V : DVar) (l : List Lk) : List Lk := if V.hop then l else l.reverse
@@ -281,17 +348,128 @@ theorem dijkstra_path_valid_prefix_partial (g : DGraph) (pred : List Nat) (src :
     simp only [hopLinks, DVar.old]
     exact hp x (hm x (by simp))
 
+/- ---------------------------------------------------------------- Dijkstra: the priority-queue loop as written
+
+Hypotheses of the theorems below, both guaranteed by the code for graphs built by add_route/new_edge/do_seal
+(`graphOK_empty`, `graphOK_addRoute`, `graphOK_seal`, `graphOK_routes`):
+* `GraphOK g`: edge extremities are graph nodes, at most one edge between two nodes (`new_edge` throws otherwise), no
+  empty link list (`add_route_check_params`: "Empty route … forbidden"; the loopback edge has one link);
+* `NoOverflow g M`: every edge has at most M links and (number of nodes) · M < ULONG_MAX = 2^64 − 1 — what keeps
+  `cost_v_u + cost_arr[v]` from wrapping around (the model computes it `% 2^64` like the code).
+src = dst is excluded as in the statements above (finding `self-route-longer-than-cycle`: the declared self edge is
+returned without looking further). -/
+
+/-- **Dijkstra: the relaxation invariant holds at every point of the loop** (`DCore`, spelled out in the last clause):
+after the initialisation, after every single iteration of the `foreach (outedges)` body, after every iteration of the
+`while` loop (pop, `continue` or relax); and when the loop is left the queue is empty.  Every graph, every source,
+every fuel. -/
+theorem dijkstra_relaxation_invariant (g : DGraph) (M src : Nat) (hg : GraphOK g) (ho : NoOverflow g M)
+    (hs : src < g.nodes.length) :
+    DInv g M src (dijkstraInit g src) ∧
+    (∀ st v e, DCore g M src st → v < g.nodes.length → st.c v ≠ ULONG_MAX → e ∈ g.edges → e.src = v →
+      DCore g M src (relaxOne v st e)) ∧
+    (∀ f st st', DInv g M src st → dijkstraLoop DVar.now g f st = some st' → DInv g M src st' ∧ st'.queue = []) ∧
+    (∀ st, DCore g M src st →
+      st.c src = 0 ∧
+      (∀ u, u < g.nodes.length → u ≠ src → st.c u ≠ ULONG_MAX →
+        st.p u < g.nodes.length ∧ st.c (st.p u) ≠ ULONG_MAX ∧
+        ∃ e ∈ g.edges, e.src = st.p u ∧ e.dst = u ∧ st.c (st.p u) + e.links.length ≤ st.c u) ∧
+      (∀ u, u < g.nodes.length → st.c u = ULONG_MAX → st.p u = ULONG_MAX)) :=
+  ⟨dijkstraInit_inv g M src hs,
+   fun _ _ _ h hv hf he hsrc => h.relaxOne hg ho hv hf he hsrc,
+   fun f st st' hinv hl => dijkstraLoop_spec g M src hg ho f st st' hinv hl,
+   fun _ h => ⟨h.src0, h.tree, h.unre⟩⟩
+
+/-- **Dijkstra: the loop stops after at most (nodes + edges) pops, and what it leaves is exact** — with more fuel than
+that (the driver's 100000 covers every graph with nodes + edges < 100000) the loop returns a state `st'` in which:
+the predecessor of every node with a finite cost (≠ src) is a node with a finite cost, the edge pred → node is in
+the graph and cost[node] = cost[pred] + |links of that edge|; a node has a finite cost iff some chain of edges leads
+to it from src; that cost is the link count of such a chain and ≤ the link count of every such chain; a node with cost
+ULONG_MAX has pred ULONG_MAX.  Every graph, every source. -/
+theorem dijkstra_final_state (g : DGraph) (M src fuel : Nat) (hg : GraphOK g) (ho : NoOverflow g M)
+    (hs : src < g.nodes.length) (hf : g.nodes.length + g.edges.length < fuel) :
+    ∃ st', dijkstraLoop DVar.now g fuel (dijkstraInit g src) = some st' ∧
+      dijkstraPreds DVar.now g fuel src = some st'.pred ∧ st'.c src = 0 ∧
+      (∀ u, u < g.nodes.length → u ≠ src → st'.c u ≠ ULONG_MAX →
+        st'.p u < g.nodes.length ∧ st'.c (st'.p u) ≠ ULONG_MAX ∧
+        ∃ e ∈ g.edges, e.src = st'.p u ∧ e.dst = u ∧ st'.c (st'.p u) + e.links.length = st'.c u) ∧
+      (∀ v es, EdgeChain g src es v → v < g.nodes.length ∧ st'.c v ≠ ULONG_MAX ∧ st'.c v ≤ chainLen es) ∧
+      (∀ v, v < g.nodes.length → st'.c v ≠ ULONG_MAX → ∃ es, EdgeChain g src es v ∧ chainLen es = st'.c v) ∧
+      (∀ v, v < g.nodes.length → st'.c v = ULONG_MAX → st'.p v = ULONG_MAX) := by
+  obtain ⟨st', hl⟩ := dijkstraLoop_terminates g M src hg ho hs fuel hf
+  obtain ⟨hinv, hq⟩ := dijkstraLoop_spec g M src hg ho fuel _ st' (dijkstraInit_inv g M src hs) hl
+  have hfin := hinv.final hg hq
+  have h0 : st'.c src ≠ ULONG_MAX := by rw [hfin.core.src0]; decide
+  refine ⟨st', hl, by rw [dijkstraPreds_now, hl]; rfl, hfin.core.src0, fun u hu hus hfu => hfin.tree_eq u hu hus hfu,
+    ?_, ?_, hfin.core.unre⟩
+  · intro v es hc
+    have := hfin.reach hg ho es src v hs h0 hc
+    rw [hfin.core.src0] at this
+    simpa using this
+  · intro v hv hfv
+    obtain ⟨links, hw, hlen⟩ := dijkstraWalk_ok g M src st' hg ho hfin (g.nodes.length + 1) v [] [] hv hfv
+      List.nodup_nil (by simp) (by simp)
+    obtain ⟨es, hc, hr⟩ := dijkstra_path_valid g st'.pred src _ v [] _ hw
+    refine ⟨es, hc, ?_⟩
+    simp only [List.append_nil] at hr
+    rw [chainLen, ← hr, hlen]
+
+/-- **Dijkstra answers whenever a chain exists, with the minimal link count** — src ≠ dst, fuel > nodes + edges: if
+some chain of graph edges leads from src to dst, `get_local_route` returns a route (no exception, the composition
+loop terminates), the route is the concatenation of the declared link lists along a chain of edges from src to dst,
+and its link count is ≤ the link count of every chain of edges from src to dst (general Dijkstra minimality: edge
+weights = link counts, lazy deletion).  Every graph. -/
+theorem dijkstra_route_minimal (g : DGraph) (M fuel srcId dstId s d : Nat) (hg : GraphOK g) (ho : NoOverflow g M)
+    (hf : g.nodes.length + g.edges.length < fuel) (hs : g.nodeIdx srcId = some s) (hd : g.nodeIdx dstId = some d)
+    (hsd : s ≠ d) (es0 : List DEdge) (hch : EdgeChain g s es0 d) :
+    ∃ es, EdgeChain g s es d ∧ dijkstraRoute g fuel srcId dstId = .ok (es.flatMap fun e => e.links) ∧
+      chainLen es ≤ chainLen es0 ∧ ∀ es', EdgeChain g s es' d → chainLen es ≤ chainLen es' := by
+  have hsn := nodeIdx_lt g srcId s hs
+  obtain ⟨st', _, hfin, hroute⟩ := dijkstraRoute_final g M hg ho fuel srcId dstId s d hf hs hd hsd
+  have h0 : st'.c s ≠ ULONG_MAX := by rw [hfin.core.src0]; decide
+  have hreach : ∀ es', EdgeChain g s es' d → d < g.nodes.length ∧ st'.c d ≠ ULONG_MAX ∧ st'.c d ≤ chainLen es' := by
+    intro es' hc'
+    have := hfin.reach hg ho es' s d hsn h0 hc'
+    rw [hfin.core.src0] at this
+    simpa using this
+  obtain ⟨hdn, hfd, _⟩ := hreach es0 hch
+  obtain ⟨links, hw, hlen⟩ := dijkstraWalk_ok g M s st' hg ho hfin (g.nodes.length + 1) d [] [] hdn hfd
+    List.nodup_nil (by simp) (by simp)
+  obtain ⟨es, hc, hr⟩ := dijkstra_path_valid g st'.pred s _ d [] _ hw
+  simp only [List.append_nil] at hr hw
+  have hcl : chainLen es = st'.c d := by rw [chainLen, ← hr, hlen]
+  refine ⟨es, hc, by unfold dijkstraRoute; rw [hroute, hw, hr], ?_, ?_⟩
+  · rw [hcl]; exact (hreach es0 hch).2.2
+  · intro es' hc'; rw [hcl]; exact (hreach es' hc').2.2
+
+/-- **Dijkstra: "No route" exactly when there is none** — src ≠ dst, fuel > nodes + edges: when no chain of graph
+edges leads from src to dst the answer is the "No route" exception (not a spin, not a null dereference); with
+`dijkstra_route_minimal`: a route is returned iff a chain exists. -/
+theorem dijkstra_no_route_exact (g : DGraph) (M fuel srcId dstId s d : Nat) (hg : GraphOK g) (ho : NoOverflow g M)
+    (hf : g.nodes.length + g.edges.length < fuel) (hs : g.nodeIdx srcId = some s) (hd : g.nodeIdx dstId = some d)
+    (hsd : s ≠ d) (hno : ∀ es, ¬ EdgeChain g s es d) : dijkstraRoute g fuel srcId dstId = .error .noRoute := by
+  have hsn := nodeIdx_lt g srcId s hs
+  have hdn := nodeIdx_lt g dstId d hd
+  obtain ⟨st', hl, hfin, hroute⟩ := dijkstraRoute_final g M hg ho fuel srcId dstId s d hf hs hd hsd
+  unfold dijkstraRoute
+  rw [hroute]
+  by_cases hfd : st'.c d = ULONG_MAX
+  · exact dijkstraWalk_noRoute g M s st' hfin _ d [] hdn (fun e => hsd e.symm) hfd
+  · -- a finite cost is realised by a chain
+    obtain ⟨links, hw, _⟩ := dijkstraWalk_ok g M s st' hg ho hfin (g.nodes.length + 1) d [] [] hdn hfd
+      List.nodup_nil (by simp) (by simp)
+    obtain ⟨es, hc, _⟩ := dijkstra_path_valid g st'.pred s _ d [] _ hw
+    exact absurd hc (hno es)
+
 /-
-FULL-STRENGTH STATEMENTS for Dijkstra:
+FULL-STRENGTH STATEMENTS for Dijkstra (src ≠ dst):
   (1) a returned route is the concatenation of the *declared* link lists along a chain — `dijkstra_path_valid`,
       `dijkstra_route_is_chain` (proved; false before the fix of D16)
-  (2) a route is returned whenever a chain of declared routes exists, with minimal link count — NOT proved (false
-      before the fix of D15, see the regression witness; still false for src = dst when a declared self route is
-      longer than a cycle through a neighbour: `dijkstra_self_route_not_minimal_counterexample`).  Proved part: no
-      chain ⇒ no route
-      (`dijkstra_unreachable_no_route`).  The converse and the minimality of Dijkstra's answer are checked by
-      correspondence only (route returned ⇔ a chain exists, equal link count with the Floyd model / the Bellman–Ford
-      spec on the same graph), as planned in DESIGN §8.
+  (2) a route is returned whenever a chain of declared routes exists, with minimal link count — `dijkstra_route_minimal`
+      (proved for the code as it is now, under `GraphOK`/`NoOverflow`; false before the fix of D15, see the regression
+      witness); no chain ⇒ the "No route" exception — `dijkstra_no_route_exact`.
+  For src = dst the property is false by the letter (a declared self route longer than a cycle through a neighbour is
+  returned as declared): `dijkstra_self_route_not_minimal_counterexample`.
 -/
 
 /-- the sealed graph of: route 0→1 with links [1, 2] (one-way) -/
@@ -361,6 +539,62 @@ def fEx : FloydSt :=
 example : (floydLoops 3 fEx).cost 0 2 = some 3 ∧ floydRoute 3 (floydLoops 3 fEx) 0 2 = .ok [1, 2, 3] ∧
     floydRoute 3 (floydLoops 3 fEx) 2 0 = .ok [3, 2, 1] ∧ walkCost fEx.cost 0 [1] 2 = some 3 := by
   refine ⟨by decide, by decide, by decide, by decide⟩
+
+/-- non-vacuity of `floyd_pred_invariant`, `floyd_route_length`, `floyd_route_minimal`: the declarations of `fEx`
+replayed as the driver does (`wellDecl_routes`); 0 → 2 has the non-empty chains `[4,5,6,7]` (direct) and `[1,2] [3]`;
+the route returned has the 3 links of the cost table -/
+def fDecl : List (Nat × Nat × Bool × List Lk) := [(0, 1, true, [1, 2]), (1, 2, true, [3]), (0, 2, false, [4, 5, 6, 7])]
+
+def replay (routes : List (Nat × Nat × Bool × List Lk)) : Option FloydSt :=
+  routes.foldl (fun acc r => acc.bind fun st => floydAddRoute st r.1 r.2.1 r.2.2.2 r.2.2.1) (some FloydSt.init)
+
+example : ∃ s, replay fDecl = some s ∧
+    WellDecl 3 s ∧ (floydSeal 3 s).cost 0 2 = some 3 ∧ (floydSeal 3 s).pred 0 2 = some 1 ∧
+    floydRoute 3 (floydSeal 3 s) 0 2 = .ok [1, 2, 3] ∧
+    HopChain (floydLoopback 3 s).link 0 [(0, 2, [4, 5, 6, 7])] 2 ∧
+    HopChain (floydLoopback 3 s).link 0 [(0, 1, [1, 2]), (1, 2, [3])] 2 :=
+  ⟨_, rfl, wellDecl_routes 3 fDecl FloydSt.init _ (wellDecl_init 3) (by decide) rfl, by decide, by decide, by decide,
+   ⟨rfl, by decide, rfl⟩, ⟨rfl, by decide, rfl, by decide, rfl⟩⟩
+
+/-- non-vacuity of `floyd_no_route`: one-way routes 0 → 1 and 2 → 1; nothing leads from 0 to 2 -/
+def fDecl15 : List (Nat × Nat × Bool × List Lk) := [(0, 1, false, [1]), (2, 1, false, [2])]
+
+example : ∃ s, replay fDecl15 = some s ∧
+    WellDecl 3 s ∧ (floydSeal 3 s).cost 0 2 = none ∧ floydRoute 3 (floydSeal 3 s) 0 2 = .error .noRoute :=
+  ⟨_, rfl, wellDecl_routes 3 fDecl15 FloydSt.init _ (wellDecl_init 3) (by decide) rfl, by decide, by decide⟩
+
+/-- non-vacuity of `dijkstra_relaxation_invariant`, `dijkstra_final_state`, `dijkstra_route_minimal`: 0 ↔ 1 `3 4`,
+1 ↔ 2 `1 2`, 0 → 2 `5 6 7 8 9` replayed as the driver does, then sealed (`graphOK_routes`): the graph satisfies the
+hypotheses (3 nodes, 8 edges, ≤ 5 links per edge), 0 → 2 has the direct chain of 5 links and the route returned has 4 -/
+def dDecl : List (Nat × Nat × Bool × List Lk) := [(0, 1, true, [3, 4]), (1, 2, true, [1, 2]), (0, 2, false, [5, 6, 7, 8, 9])]
+
+def replayD (routes : List (Nat × Nat × Bool × List Lk)) : Option DGraph :=
+  routes.foldl (fun acc r => acc.bind fun g => dijkstraAddRoute g r.1 r.2.1 r.2.2.2 r.2.2.1)
+    (some { nodes := [], edges := [] })
+
+example : ∃ g0, replayD dDecl = some g0 ∧ GraphOK (dijkstraSeal g0) ∧ NoOverflow (dijkstraSeal g0) 5 ∧
+    (dijkstraSeal g0).nodes.length + (dijkstraSeal g0).edges.length < 100 ∧
+    (dijkstraSeal g0).nodeIdx 0 = some 0 ∧ (dijkstraSeal g0).nodeIdx 2 = some 2 ∧
+    EdgeChain (dijkstraSeal g0) 0 [{ src := 0, dst := 2, links := [5, 6, 7, 8, 9] }] 2 ∧
+    dijkstraRoute (dijkstraSeal g0) 100 0 2 = .ok [3, 4, 1, 2] :=
+  ⟨_, rfl, graphOK_routes dDecl _ _ graphOK_empty (by decide) rfl, ⟨by decide, by decide⟩, by decide, by decide,
+   by decide, ⟨by decide, rfl, rfl⟩, by decide⟩
+
+/-- non-vacuity of `dijkstra_no_route_exact`: one-way routes 0 → 1 and 2 → 1: no chain leads from 0 to 2 (if one did,
+`dijkstra_route_minimal` would give a route, but the answer is "No route") -/
+def g15d : DGraph := dijkstraSeal ((replayD fDecl15).getD { nodes := [], edges := [] })
+
+example : GraphOK g15d ∧ NoOverflow g15d 1 ∧ g15d.nodes.length + g15d.edges.length < 100 ∧
+    g15d.nodeIdx 0 = some 0 ∧ g15d.nodeIdx 2 = some 2 ∧
+    (∀ es, ¬ EdgeChain g15d 0 es 2) ∧ dijkstraRoute g15d 100 0 2 = .error .noRoute := by
+  have hg : GraphOK g15d := graphOK_routes fDecl15 _ ((replayD fDecl15).getD { nodes := [], edges := [] })
+    graphOK_empty (by decide) rfl
+  have hn : dijkstraRoute g15d 100 0 2 = .error .noRoute := by decide
+  refine ⟨hg, ⟨by decide, by decide⟩, by decide, by decide, by decide, ?_, hn⟩
+  intro es hc
+  obtain ⟨es', _, hr, _⟩ := dijkstra_route_minimal g15d 1 100 0 2 0 2 hg ⟨by decide, by decide⟩ (by decide)
+    (by decide) (by decide) (by decide) es hc
+  rw [hn] at hr; cases hr
 
 example : ∃ t', fullAddRoute false [] 3 4 none none [7, 8] true = some t' ∧ (fullLocal t' 3 4).links = [7, 8] ∧
     (fullLocal t' 4 3).links = [8, 7] := ⟨_, rfl, by decide, by decide⟩
